@@ -24,6 +24,8 @@ T = {
     'C14-m1': ('C14', 'the repr fallback returns before end_visit: a failed value stays in the visited set, so the SAME object reached again in one pformat call prints as a recursion marker and its warning is lost', {'C14': 'VIOLATION with input'}),
     'C17-m1': ('C17', 'the attrs extra memoises default-factory results per (class, attribute): with a takes_self factory later instances are compared against the first printed instance\'s default (needs two instances of one class with different self-dependent defaults)', {'C17': 'VIOLATION with input (after generating several instances per class with self-dependent factories; before that: no-failing-input-found via the fail-closed translator)'}),
     'C16-m1': ('C16', 'styleattrs_to_colorful memoised on (color, bgcolor) only: two tokens sharing colours but differing in bold/italic/underline get the style of the first one rendered in the process (e.g. style friendly: String vs bold String.Escape)', {'C16': 'VIOLATION with input'}),
+    'C19-m1': ('C19', 'float literal documents memoised with lru_cache keyed by value: 0.0 == -0.0 share a slot, so whichever zero is printed first in the interpreter decides how both print afterwards', {'C19': 'VIOLATION with history', 'C01': 'VIOLATION with input'}),
+    'C20-m1': ('C20', 'register_pretty pops the deferred entry BEFORE writing the registry: a one-statement window in which a concurrent first print finds the printer in neither table and prints the repr (needs a preemption exactly between the two statements)', {'C20': 'VIOLATION with schedule (and the translated program-shape fact flips)'}),
     'C03-m1': ('C03', 'the dangling comma of a commented one-element tuple is added only in the flat variant: at narrow widths (comment above the element) the 1-tuple prints as a parenthesised expression', {'C03': 'VIOLATION with input', 'C09': 'VIOLATION with input'}),
 }
 
